@@ -506,11 +506,39 @@ func (p *Plugin) appendIndexName(outBuf []byte, event *pipeline.Event) []byte {
 			if value == "" {
 				value = "not_set"
 			}
-			outBuf = append(outBuf, value...)
+			outBuf = appendJSONStringContent(outBuf, value)
 		}
 	}
 	outBuf = append(outBuf, "\"}}"...)
 	return outBuf
+}
+
+// appendJSONStringContent appends s escaped for use inside a JSON string literal,
+// so a field value can't break out of the bulk action line.
+func appendJSONStringContent(outBuf []byte, s string) []byte {
+	const hex = "0123456789abcdef"
+	start := 0
+	for i := 0; i < len(s); i++ {
+		c := s[i]
+		if c >= 0x20 && c != '"' && c != '\\' {
+			continue
+		}
+		outBuf = append(outBuf, s[start:i]...)
+		switch c {
+		case '"', '\\':
+			outBuf = append(outBuf, '\\', c)
+		case '\n':
+			outBuf = append(outBuf, '\\', 'n')
+		case '\r':
+			outBuf = append(outBuf, '\\', 'r')
+		case '\t':
+			outBuf = append(outBuf, '\\', 't')
+		default:
+			outBuf = append(outBuf, '\\', 'u', '0', '0', hex[c>>4], hex[c&0xf])
+		}
+		start = i + 1
+	}
+	return append(outBuf, s[start:]...)
 }
 
 func (p *Plugin) getAuthHeader() string {
